@@ -142,7 +142,7 @@ def interp(ctx, cls="prec", kind="array3", via="ctor", as_array=False):
         got = tp(z, t)
         ctx.observe("T", got)
         ctx.prove("one temperature per node", len(got) == len(z))
-        for i in range(len(z)):
+        for i in range(min(len(z), len(got))):
             ctx.prove("T(z_i, t) equals the schedule at t", ctx.eq(got[i], ref(t)))
 
 
@@ -184,7 +184,7 @@ def ctor_vs_setter(ctx, model="prec", kind="array2", prev="const"):
         ctx.observe("T", [list(x) for x in Ts])
         for T, nm in zip(Ts, ("constructor", "setter", "constructor(other) then setter")):
             ctx.prove("one temperature per node [%s]" % nm, len(T) == 3)
-            ctx.prove("T(z, t) equals the schedule at t [%s]" % nm, ctx.all([ctx.eq(T[i], ref(t)) for i in range(3)]))
+            ctx.prove("T(z, t) equals the schedule at t [%s]" % nm, ctx.all([ctx.eq(T[i], ref(t)) for i in range(min(3, len(T)))]))
 
 
 # --------------------------------------------------------------------------- backend stub (tagging)
@@ -242,6 +242,18 @@ def step_times(ctx, steps):
     return t0, dts
 
 
+def touch_schedule(ref, t0, dts, stages):
+    """evaluate the reference schedule at every time the run will visit, before the first obligation (an uninterpreted
+    schedule function creates its value and the positivity assumption on first use; assumptions are not retroactive)"""
+    tprev = t0
+    ref(t0)
+    for dt in dts:
+        for s in stages:
+            ref(tprev + s * dt)
+        tprev = tprev + dt
+        ref(tprev)
+
+
 def recorded_T(ctx, kind="array2", steps=2, stages=()):
     """setup records T(time[0]); every step (preProcess, getdXdt at the old time [and at intermediate stage times],
     postProcess at the new time) appends the new time and the schedule evaluated at it"""
@@ -249,6 +261,7 @@ def recorded_T(ctx, kind="array2", steps=2, stages=()):
     tp = PrecTP(*args)
     m, log, used = mk_binary(ctx, tp)
     t0, dts = step_times(ctx, steps)
+    touch_schedule(ref, t0, dts, stages)
     m.pData.time[0] = t0
     m.setup()
     # the table refresh during the steps is the subject of C13.lookup_*: keep its branching out of this harness
@@ -354,6 +367,7 @@ def lookup_history(ctx, steps=3, stages=()):
     ctx.assume(mx >= 0)
     m.constraints.maxTempChange = mx
     t0, dts = step_times(ctx, steps)
+    touch_schedule(ref, t0, dts, stages)
     m.pData.time[0] = t0
     m.setup()
     prove_uses(ctx, used, mx, "setup")
@@ -575,8 +589,8 @@ HARNESSES = [
             bounds={"steps from setup": "3 (quick), 6 (thorough)", "size classes": 3},
             params={"quick": [dict(steps=3)], "thorough": [dict(steps=6)]}),
     Harness("C13.lookup_stages", lookup_history, functions=_FR, assumptions=_A_TABLE + _A_SCHED[1:], stubs=_S_TAG, budget={"quick": 120.0, "thorough": 1200.0},
-            bounds={"steps from setup": 2, "intermediate stage evaluations per step (RK4-like)": "1 (quick), 3 (thorough)"},
-            params={"quick": [dict(steps=2, stages=(0.5,))], "thorough": [dict(steps=2, stages=(0.5, 0.5, 1.0))]}),
+            bounds={"steps from setup": 2, "intermediate stage evaluations per step (RK4-like)": "1 (quick), 1-2 (thorough)"},
+            params={"quick": [dict(steps=2, stages=(0.5,))], "thorough": [dict(steps=3, stages=(0.5,)), dict(steps=2, stages=(0.5, 1.0))]}),
     Harness("C13.lookup_remesh", lookup_remesh, functions=_FR, assumptions=_A_TABLE, stubs=_S_TAG,
             bounds={"size classes": "4 -> 2 / 5 / 4 (quick), 8 -> 2 / 10 / 8 (thorough)", "steps after the re-mesh": "2 (quick), 3 (thorough)"},
             params={"quick": [dict(mode="none"), dict(mode="resize"), dict(mode="append")],
